@@ -4,7 +4,7 @@ import functools
 import itertools
 from typing import Any, Callable, Collection, Iterable, MutableSequence, Optional, Type, TypeVar, overload
 from .base_property import base_ro_property, base_rw_property
-from .fields import required_field, optional_field, repeated_field
+from .fields import required_field, optional_field, repeated_field, _touches
 from .repeated import Repeated
 from . import indexes
 from .. import base
@@ -181,11 +181,19 @@ class RepeatedNodeWrapper(MutableSequence[_M]):
             assert t is not None
             last_token = t
         else:
+            store = self._repeated.token_store
             prev_last = self._prev_last(start)
-            t = self._repeated.token_store.get_next(prev_last)
+            t = store.get_next(prev_last)
             assert t is not None
             first_token = t
             last_token = self._repeated.items[stop - 1].last_token
+            item_first = self._repeated.items[start].first_token
+            if (stop < len(self._repeated.items) and first_token is not item_first
+                    and _touches(last_token, store.get_next, 0)
+                    and all(not token.raw_text.strip() for token in store.iter(first_token, store.get_prev(item_first)))):
+                # the next item is written right against the removed one (`1 "s"2`): only the blanks in front of the
+                # removed item would keep the previous item apart from it, so they stay.
+                first_token = item_first
         self._repeated.token_store.remove(first_token, last_token)
 
     @overload
